@@ -10,7 +10,7 @@ use crate::exch::{ExchCfg, Gate, Menu};
 use crate::exch_run::{replay_exchange, run_exchanges};
 use crate::gen::*;
 
-pub const RULE: &str = "exchanges = request menu (method, version, framing none/Content-Length/default chunked/explicit chunked, Expect, Connection: close, despite-method) x server menu (optional interim 100 / silent server / refusal, final status {200,204,304,404,301,302,307,403}, version, body none/CL 0/CL n/chunked 1-2 chunks with extension and trailers/close-delimited, Connection: close, trailing bytes of a next response; a non-3xx with Location; both framing headers; a 40-field head) x boundary stopping {off,on}, plus 25 000-byte request bodies with several chunks per write; per exchange the COMPLETE graph of states (full flow fingerprint, consumed, arrived, body cursor, observations) under: head write with every buffer size 0..=|head|+1, body writes with inputs {1,2,rest} x buffers {0,1,5,6,7,8,11,12,large} and direct-write reports, 1-byte arrivals (every window the caller can ever present), try_read_100 / give-up / try_response / read with buffers {0,1,2,3,4,large} at every window, proceed whenever ready; queries and readiness-vs-proceed checked in every state; every final state must show the same observation and the reference verdict; every state must be able to reach the end. distinct = distinct (exchange, final observation) pairs";
+pub const RULE: &str = "exchanges = request menu (method, version, framing none/Content-Length/default chunked/explicit chunked, Expect, Connection: close, despite-method) x server menu (optional interim 100 / silent server / refusal, final status {200,204,304,404,301,302,307,403}, version, body none/CL 0/CL n/chunked 1-2 chunks with extension and trailers/close-delimited, Connection: close, trailing bytes of a next response; a non-3xx with Location; both framing headers; a 40-field head; empty-valued fields ahead of Connection / Location) x boundary stopping {off,on}, plus 25 000-byte request bodies with several chunks per write; per exchange the COMPLETE graph of states (full flow fingerprint, consumed, arrived, body cursor, observations) under: head write with every buffer size 0..=|head|+1, body writes with inputs {1,2,rest} x buffers {0,1,5,6,7,8,11,12,large} and direct-write reports, 1-byte arrivals (every window the caller can ever present), try_read_100 / give-up / try_response / read with buffers {0,1,2,3,4,large} at every window, proceed whenever ready; queries and readiness-vs-proceed checked in every state; every final state must show the same observation and the reference verdict; every state must be able to reach the end. distinct = distinct (exchange, final observation) pairs";
 
 const MANY_FIELDS: [(&str, &str); 40] = [
     ("X-Info-0", "a"), ("X-Info-1", "b"), ("X-Info-2", "c"), ("X-Info-3", "d"), ("X-Info-4", "e"), ("X-Info-5", "f"), ("X-Info-6", "g"), ("X-Info-7", "h"),
@@ -105,6 +105,9 @@ fn finals(tier: Tier) -> Vec<(u16, &'static str, Vec<(&'static str, &'static str
         (200, "1.1", vec![("Content-Length", "3")], ch1.clone()),
         (300, "1.1", vec![], BodySpec::Length(vec![])),
         (205, "1.1", vec![], BodySpec::Length(b"abc".to_vec())),
+        // empty-valued fields ahead of the fields that matter
+        (200, "1.1", vec![("X-Pad", ""), ("Connection", "close")], BodySpec::Length(b"abc".to_vec())),
+        (302, "1.1", vec![("Server", ""), ("Location", "/n")], BodySpec::Length(b"abc".to_vec())),
         // a head with many fields (40), body after it
         (200, "1.1", MANY_FIELDS.to_vec(), BodySpec::Length(b"xy".to_vec())),
     ];
